@@ -1,6 +1,10 @@
 CONSTANTS
   NKeys = @NKEYS@
-  Th = @TH@
+  NRules = 1
+  Th1 = @TH@
+  Th2 = 0
+  Act1 = "CLOSE"
+  Act2 = "CLOSE"
   P = @P@
   J = @J@
   S = 0
